@@ -36,6 +36,14 @@ def project(c, r):
 
 def gen(ctx):
     rng = ctx.rng
+    # two runtimes alive in one process at the same time (own threads, own transports): each behaves as it does alone
+    for _ in range(600 if ctx.thorough else 40):
+        # (same algorithm configuration in both: the harness keeps algorithm names in process-global slots)
+        algs, allp = R.gen_cfg(rng, rich=False)
+        cfg = " ".join(x["text"] for x in algs)
+        sa = R.gen_script(rng, algs, allp, n=rng.randrange(8, 25), adversarial=0.0, faults=0.0, stop=0.0)
+        sb = R.gen_script(rng, algs, allp, n=rng.randrange(8, 25), adversarial=0.0, faults=0.0, stop=0.0)
+        yield Case("RUNPAIR", "%s SCRIPT %s || %s SCRIPT %s" % (cfg, " ".join(sa), cfg, " ".join(sb)), tags=("two-runtimes",))
     n = 40000 if ctx.thorough else 2000
     for _ in range(n):
         yield Case("RUN", R.gen_case(rng, n=rng.randrange(1, 61 if ctx.thorough else 31), adversarial=rng.choice([0.0, 0.0, 0.05]),
@@ -53,4 +61,6 @@ def nontrivial(c, r):
 
 
 def oracle(c, impl_res):
+    if c.cmd == "RUNPAIR":
+        return None  # two traces side by side: decided by the correspondence with the model (each runtime behaves as it does alone)
     return ("ORC", "C02 %s" % impl_res)
